@@ -33,7 +33,8 @@ META = {
                    "of milestone start/end, affine slot offsets (+1 / +0) in backward mode. Necessary conditions; the dates "
                    "themselves are runtime values and are not decided."
                    " Also: per-direction position terms read from the slot ledger, all-paths clamp to the booked seconds, raise-only start-offset reservation with a zero default for absent ledger entries, recording of the first booked slot when the task completes in it, and milestone dates at the dependency bound in both directions."
-                   " Round 3: the terminal test uses own + inherited edges (shared with C04), scenario-index discipline in the functions that write reported dates (shared with C16), whole seconds of a task with work are at least 1, process-state rule.",
+                   " Round 3: the terminal test uses own + inherited edges (shared with C04), scenario-index discipline in the functions that write reported dates (shared with C16), whole seconds of a task with work are at least 1, process-state rule."
+                   " Round 4: what is left of a slot honours the reservation on every path.",
     "assumptions": [],
 }
 
